@@ -3,7 +3,7 @@
    of that list (rename is atomic and a killed process loses no completed call: assumptions about the OS). [d] is the destination
    before the run (None = absent). *)
 From Coq Require Import ZArith List Bool.
-From Verif Require Import C14.Model C14.Proofs.
+From Verif Require Import C14.Model C14.Proofs C14.Proofs2.
 Import ListNotations.
 Open Scope Z_scope.
 
@@ -26,6 +26,18 @@ Theorem C14_writefile_failure_leaves_everything_untouched : forall mode umask ma
   let '(calls, err) := write_file ws fail_after rename_ok in err = true /\ run mode umask mask (old_fs d) calls = old_fs d.
 Proof. exact write_file_failure. Qed.
 Print Assumptions C14_writefile_failure_leaves_everything_untouched.
+
+(* Write faults (Proofs2.v): the temporary file may not grow beyond [limit] bytes (file-size limit, full disk) and the writer callback
+   IGNORES the errors of its own Write calls, so only WriteFile's final Flush can notice. WriteFile returns an error exactly when
+   the data does not fit; then nothing is ever published - at every crash point the destination is its previous state - and no
+   temporary file remains; when the data fits the destination is exactly the bytes written *)
+Theorem C14_write_fault_is_reported_and_nothing_is_published : forall mode umask mask ws limit d, Forall (fun m => 0 <= m) ws -> 0 <= limit ->
+  let '(calls, err) := write_file_limited ws limit in
+  (err = true <-> limit < zsum ws) /\
+  (err = true -> run mode umask mask (old_fs d) calls = old_fs d /\ forall p q, calls = p ++ q -> dest (run mode umask mask (old_fs d) p) = d) /\
+  (err = false -> run mode umask mask (old_fs d) calls = {| dest := Some (New (zsum ws), mask mode umask); temp := None |}).
+Proof. exact write_file_limited_spec. Qed.
+Print Assumptions C14_write_fault_is_reported_and_nothing_is_published.
 
 (* The File API in any order of Write, Commit and Close, at any crash point: the destination is the old file or a file published by a rename *)
 Theorem C14_any_call_sequence_is_atomic : forall mode umask mask l f,
@@ -55,5 +67,10 @@ Module NonVacuous.
   Example large_write_bypasses_the_buffer : fst (write_file [10; 200000; 5] None true) = [SOpenTemp; SWrite 65536; SWrite 134474; SWrite 5; SClose; SRename true].
   Proof. vm_compute. reflexivity. Qed.
   Example failing_writer : write_file [70000; 10; 10] (Some 2%nat) true = ([SOpenTemp; SWrite 70000; SClose; SUnlink], true).
+  Proof. vm_compute. reflexivity. Qed.
+  (* a 200 000-byte block straight through an empty buffer into a file limited to 131 072 bytes: short write, sticky error, unlink *)
+  Example limited_direct_write : write_file_limited [200000] 131072 = ([SOpenTemp; SWrite 131072; SClose; SUnlink], true).
+  Proof. vm_compute. reflexivity. Qed.
+  Example limited_flush_fails : write_file_limited [10; 70000; 5] 65536 = ([SOpenTemp; SWrite 65536; SClose; SUnlink], true).
   Proof. vm_compute. reflexivity. Qed.
 End NonVacuous.
